@@ -1,4 +1,6 @@
 """C06 — Modular<M> is the ring Z/M with canonical representatives and true inverses (rlib/mint)."""
+import re
+
 ID = "C06"
 CRATE = "c06"
 COQ_DIR = "C06"
@@ -10,7 +12,7 @@ AUDIT_IMPORT = ("From Coq Require Import ZArith List Bool String.\n"
 CASE_TYPE = "case"
 EXPLAIN = "explain"
 AXIOM_ALLOW = []
-SHARD = 3000
+SHARD = 4000
 THEOREMS = [
     ("c06_new",
      "forall M : Z, 2 <= M < 2 ^ 31 -> forall v : Z, - 2 ^ 63 <= v < 2 ^ 63 -> new M v = Some (v mod M) /\\ 0 <= v mod M < M"),
@@ -57,27 +59,53 @@ THEOREMS = [
     ("c06_lower_bound_needed_refuted_at_1",
      "exists x d r, 0 <= x < 1 /\\ 0 <= d < 2 ^ 64 /\\ pow 1 x d = Some r /\\ ~ (0 <= r < 1)"),
 ]
-RULE = ("moduli 2,3,4,6,7,11,12 (exhaustive: every operand pair in [0,M)^2 for + - * / == and the assigning forms, every "
-        "residue for neg/inv/pow/new incl. non-canonical constructor arguments), 65536, 65537, 998244353, 1000000007, "
-        "2147483647, 2147483646, 2147483629 (all pairs of the boundary residues 0,1,2,M-2,M-1,M/2,M/2+1, random residues, "
-        "constructor arguments >= 2^31, negative, i64::MIN/MAX, multiples of M +-1; exponents 0,1,2,2^63,u64::MAX, random; "
-        "inverses of units and non-units, quotient-heavy and Fibonacci-like operands); every case in the debug and the "
-        "release profile; non-trivial = the integer result of the operation is not already the canonical representative "
-        "(a reduction, a lift of a negative value or a conditional subtraction has to happen)")
-TRUSTED = ["executor harness/crates/c06 (instantiates Modular<M> for 14 moduli, calls new/read/neg/inv/pow/+,-,*,/ and the "
-           "assigning forms/==, prints inner(), Display, Debug, Writable output)",
-           "checks/c06.py (case generator, Coq term printer)"]
+RULE = ("31 moduli: 2,3,4,6,7,11,12 (exhaustive: every operand pair in [0,M)^2 for + - * / == and the assigning forms, every "
+        "residue for neg/inv/pow/new incl. non-canonical constructor arguments) and the odd composites / prime powers "
+        "5,9,10,15,21,25 (every residue for neg/inv/pow/new, every operand pair: all operators in the thorough tier; in the "
+        "quick tier one operator per pair, for 21 and 25 on every second pair); 65536, 65537, 998244353, 1000000007, 2147483647, 2147483646, 2147483629 (all "
+        "pairs of the boundary residues 0,1,2,M-2,M-1,M/2,M/2+1, random residues, constructor arguments >= 2^31, negative, "
+        "i64::MIN/MAX, multiples of M +-1; exponents 0,1,2,2^63,u64::MAX, random; inverses of units and non-units, "
+        "quotient-heavy and Fibonacci-like operands) and, with the same families on a smaller sample, 341, 561 (Carmichael), "
+        "46341, 1373653 (strong pseudoprime), 2^24, 16777259, 10^9, 2^30-1 (odd composite), 2^30, 1073741827, 2147483645 (odd "
+        "composite next to 2^31) with units next to every factor and cofactor; factors at the product-width boundaries "
+        "2^15+-1, 46340..46342, 65535..65537, 2^24, 2^30, 2^31 mod M, 2^32 mod M (pairs for * and *=, bases of pow) and pairs "
+        "b = +-a^-1, +-a^-1 +-1 (products 1, -1, +-a with a quotient of the order of M); multi-step expressions run on a stack "
+        "machine in the executor (a+b+c incl. (M-1)*3, a*b+-c, -(a-b), a^d*a, (a^d)^e, inv(inv a), (x/y)*y, (x*y)/y, "
+        "operator and assigning forms, the constants ZERO/ONE as operands, random expressions of 3..8 operations) whose "
+        "result is printed as a value or compared with == against a fresh value that is congruent / off by one / non-canonical; "
+        "998244353 and 1000000007 also through the aliases Mint998/Mint107; read_vec / tuple reads of several values; "
+        "inverse and quotient on a second thread next to other moduli; every case in the debug and the release profile; "
+        "non-trivial = the integer result of the operation is not already the canonical representative (a reduction, a lift "
+        "of a negative value or a conditional subtraction has to happen), for an expression: at least two operations")
+TRUSTED = ["executor harness/crates/c06 (instantiates Modular<M> for 31 moduli + the aliases Mint998/Mint107, calls "
+           "new/read/read_vec/tuple read/neg/inv/pow/+,-,*,/ and the assigning forms/==/ZERO/ONE singly and in multi-step "
+           "expressions, prints inner() and the byte-exact (hex) Display, Debug, Writable output; its internal checks - "
+           "formatter flags, to_string, Writable of Vec/tuples containing the value against the same for inner(), "
+           "ZERO/ONE against new(0)/new(1), value == new(inner()) - replace the Display text by a failure token)",
+           "checks/c06.py (case generator, Coq term printer; for a multi-step expression the printer evaluates the "
+           "sub-expressions with Python integers and hands Coq the LAST operation on their canonical residues)"]
 ASSUMPTIONS = ["Rust semantics assumed by the model: `as` casts keep the low bits, + - * panic on overflow in debug builds and wrap "
                "in release builds (checked operations returning None), / and % on signed integers are Z.quot and Z.rem",
                "Readable is modelled as new applied to the parsed i64 (the decimal parser is property C08); Display/Debug delegate to "
                "u32's formatter, modelled by the same digit loop as Writable for u32",
-               "only the 14 listed moduli are executed; the theorems quantify over every 2 <= M < 2^31"]
+               "only the 31 listed moduli are executed; the theorems quantify over every 2 <= M < 2^31",
+               "Show::show (debug pretty-printer) is outside the Coq model: it is compared with a Python transcription of its "
+               "search loop in the implementation-level search only"]
 
 SMALL = [2, 3, 4, 6, 7, 11, 12]
+# odd composites, an odd prime power, 2*odd: exhaustive like SMALL in the thorough tier, thinned per pair in the quick tier
+SMALL2 = [5, 9, 10, 15, 21, 25]
 BIG = [65536, 65537, 998244353, 1000000007, 2147483647, 2147483646, 2147483629]
+# Carmichael numbers, 46341 = ceil(sqrt(2^31)) = 3^2*19*271, a strong pseudoprime to bases 2 and 3, 2^24 and the prime above,
+# 10^9, 2^30-1 (odd composite), 2^30 and the prime above, 2^31-3 = 5*19*22605091 (odd composite next to 2^31)
+BIG2 = [341, 561, 46341, 1373653, 16777216, 16777259, 1000000000, 1073741823, 1073741824, 1073741827, 2147483645]
+ALL_MODULI = sorted(SMALL + SMALL2 + BIG + BIG2)
+ALIAS = {998244353: "Mint998", 1000000007: "Mint107"}
 I64_MIN, I64_MAX, U64_MAX = -(1 << 63), (1 << 63) - 1, (1 << 64) - 1
 BINOPS = ["add", "sub", "mul", "div"]
 COQ_BIN = {"add": "BAdd", "sub": "BSub", "mul": "BMul", "div": "BDiv"}
+RPN_BIN = {"+": ("add", False), "-": ("sub", False), "*": ("mul", False), "/": ("div", False),
+           "+=": ("add", True), "-=": ("sub", True), "*=": ("mul", True), "/=": ("div", True)}
 
 
 def z(v):
@@ -85,45 +113,11 @@ def z(v):
 
 
 def harness_line(c):
-    return " ".join([str(c["m"]), c["op"]] + [str(v) for v in c["args"]])
+    return " ".join([c.get("alias") or str(c["m"]), c["op"]] + [str(v) for v in c["args"]])
 
 
 def coq_str(s):
     return '"%s"' % s.replace('"', '""')
-
-
-def coq_obs(obs, is_eq):
-    t = obs.split()
-    if not t or t[0] == "P":
-        return "Panic"
-    if is_eq:
-        return "(Eq %s %s)" % ("true" if t[1] == "1" else "false", "true" if t[2] == "1" else "false")
-    if t[2] == t[3] == t[4]:
-        return "(ValS %s %s)" % (z(int(t[1])), coq_str(t[2]))
-    return "(Val %s %s %s %s)" % (z(int(t[1])), coq_str(t[2]), coq_str(t[3]), coq_str(t[4]))
-
-
-def coq_op(c):
-    op, a = c["op"], c["args"]
-    if op == "new":
-        return "(ONew %s)" % z(a[0])
-    if op in ("read", "readfar"):     # readfar: the same token placed across the Reader's 64 KiB refill boundary
-        return "(ORead %s)" % z(a[0])
-    if op == "neg":
-        return "(ONeg %s)" % z(a[0])
-    if op == "inv":
-        return "(OInv %s)" % z(a[0])
-    if op == "pow":
-        return "(OPow %s %s)" % (z(a[0]), z(a[1]))
-    if op == "eq":
-        return "(OEq %s %s)" % (z(a[0]), z(a[1]))
-    assign = op.endswith("a") and op[:-1] in COQ_BIN
-    k = op[:-1] if assign else op
-    return "(OBin %s %s %s %s)" % (COQ_BIN[k], "true" if assign else "false", z(a[0]), z(a[1]))
-
-
-def coq_term(c, obs, profile):
-    return "(C %s %s %s)" % (z(c["m"]), coq_op(c), coq_obs(obs, c["op"] == "eq"))
 
 
 def gcdpy(a, b):
@@ -133,23 +127,180 @@ def gcdpy(a, b):
     return a
 
 
+def rust_inv(m, v):
+    """transcription of Modular::inv on a canonical v (also what it returns for a non-unit)"""
+    a, b, x, y = v, m, 0, 1
+    while a != 0:
+        k = b // a
+        b -= k * a
+        x -= k * y
+        a, b = b, a
+        x, y = y, x
+    return x % m
+
+
+def is_lit(t):
+    t = str(t)
+    return t[:1].isdigit() or (len(t) > 1 and t[0] == "-" and t[1].isdigit())
+
+
+def rpn_eval(m, toks):
+    """Python-integer evaluation of a stack program.  Returns (last, value, clean): `last` is the final
+    operation on the canonical residues of its operands - ("new", v) | ("neg", x) | ("inv", x) | ("pow", x, d) |
+    ("bin", k, assign, x, y) | ("eq", x, y) -, `value` its residue (a bool for eq), `clean` is False when a
+    non-unit was inverted anywhere (the property does not say what that returns)."""
+    st, clean = [], True
+    for t in toks:
+        t = str(t)
+        if is_lit(t):
+            st.append((int(t) % m, ("new", int(t))))
+        elif t == "Z":
+            st.append((0, ("new", 0)))
+        elif t == "O":
+            st.append((1 % m, ("new", 1)))
+        elif t == "dup":
+            st.append(st[-1])
+        elif t == "neg":
+            x = st.pop()[0]
+            st.append(((-x) % m, ("neg", x)))
+        elif t == "inv":
+            x = st.pop()[0]
+            clean = clean and gcdpy(x, m) == 1
+            st.append((rust_inv(m, x), ("inv", x)))
+        elif t.startswith("^"):
+            x = st.pop()[0]
+            st.append((pow(x, int(t[1:]), m), ("pow", x, int(t[1:]))))
+        elif t == "==":
+            y, x = st.pop()[0], st.pop()[0]
+            return ("eq", x, y), x == y, clean
+        else:
+            k, asg = RPN_BIN[t]
+            y, x = st.pop()[0], st.pop()[0]
+            if k == "add":
+                r = (x + y) % m
+            elif k == "sub":
+                r = (x - y) % m
+            elif k == "mul":
+                r = (x * y) % m
+            else:
+                clean = clean and gcdpy(y, m) == 1
+                r = (x * rust_inv(m, y)) % m
+            st.append((r, ("bin", k, asg, x, y)))
+    assert len(st) == 1, toks
+    return st[0][1], st[0][0], clean
+
+
+def norm(c):
+    """the single operation Coq is asked about: (kind, ...) with kind in new/read/neg/inv/pow/eq/bin"""
+    op, a, m = c["op"], c["args"], c["m"]
+    if op == "new":
+        return ("new", a[0])
+    if op in ("read", "readfar"):     # readfar: the same token placed across the Reader's 64 KiB refill boundary
+        return ("read", a[0])
+    if op == "readv":                 # read_vec of a[1:], element a[0]
+        return ("read", a[1 + a[0]])
+    if op == "readt":                 # (Modular, i64, Modular) = a[1:4], component a[0]
+        return ("read", a[1 + a[0]])
+    if op in ("neg", "inv", "tinv"):  # tinv/tdiv: computed on a second thread
+        return (op[-3:], a[0])
+    if op == "pow":
+        return ("pow", a[0], a[1])
+    if op == "eq":
+        return ("eq", a[0], a[1])
+    if op == "tdiv":
+        return ("bin", "div", False, a[0], a[1])
+    if op == "rpn":
+        return rpn_eval(m, a)[0]
+    assign = op.endswith("a") and op[:-1] in COQ_BIN
+    return ("bin", op[:-1] if assign else op, assign, a[0], a[1])
+
+
+def unhex(tok):
+    """a rendering as the executor saw it, byte for byte; anything that is not printable ASCII is made visible"""
+    if not tok.startswith("x"):
+        return "malformed-rendering:" + tok
+    try:
+        b = bytes.fromhex(tok[1:])
+    except ValueError:
+        return "malformed-rendering:" + tok
+    return "".join(chr(x) if 32 <= x < 127 and x != 92 else "\\x%02x" % x for x in b)
+
+
+def parse_value(obs):
+    """(inner, display, debug, written) of a value line; never raises: a line that does not have the agreed shape
+    becomes a value whose texts say so (and therefore fails the canonical-numeral specification)"""
+    t = obs.split(" ")
+    if len(t) < 5 or t[0] != "R" or not re.fullmatch(r"[0-9]{1,20}", t[1]):
+        bad = "malformed-observation:" + obs
+        return -1, bad, bad, bad
+    d, g, w = unhex(t[2]), unhex(t[3]), unhex(t[4])
+    if len(t) > 5:
+        d = "internal-check-failed:" + ",".join(t[5:]) + ":" + d
+    return int(t[1]), d, g, w
+
+
+def coq_obs(obs, is_eq):
+    if obs == "P":
+        return "Panic"
+    if is_eq:
+        t = obs.split(" ")
+        if len(t) == 3 and t[0] == "R" and t[1] in ("0", "1") and t[2] in ("0", "1"):
+            return "(Eq %s %s)" % ("true" if t[1] == "1" else "false", "true" if t[2] == "1" else "false")
+        bad = "malformed-observation:" + obs
+        return "(ValS (-1) %s)" % coq_str(bad)
+    i, d, g, w = parse_value(obs)
+    if d == g == w:
+        return "(ValS %s %s)" % (z(i), coq_str(d))
+    return "(Val %s %s %s %s)" % (z(i), coq_str(d), coq_str(g), coq_str(w))
+
+
+def coq_op(c):
+    n = norm(c)
+    k = n[0]
+    if k == "new":
+        return "(ONew %s)" % z(n[1])
+    if k == "read":
+        return "(ORead %s)" % z(n[1])
+    if k == "neg":
+        return "(ONeg %s)" % z(n[1])
+    if k == "inv":
+        return "(OInv %s)" % z(n[1])
+    if k == "pow":
+        return "(OPow %s %s)" % (z(n[1]), z(n[2]))
+    if k == "eq":
+        return "(OEq %s %s)" % (z(n[1]), z(n[2]))
+    return "(OBin %s %s %s %s)" % (COQ_BIN[n[1]], "true" if n[2] else "false", z(n[3]), z(n[4]))
+
+
+def coq_term(c, obs, profile):
+    return "(C %s %s %s)" % (z(c["m"]), coq_op(c), coq_obs(obs, norm(c)[0] == "eq"))
+
+
 def base_op(op):
     return op[:-1] if (op.endswith("a") and op[:-1] in COQ_BIN) else op
 
 
+def n_ops(c):
+    return sum(1 for t in c["args"] if not is_lit(t) and str(t) not in ("Z", "O", "dup"))
+
+
 def nontrivial(c, obs):
-    m, a, op = c["m"], c["args"], base_op(c["op"])
-    if op in ("new", "read", "readfar"):
-        return not (0 <= a[0] < m)
-    if op == "neg":
-        return a[0] % m != 0
-    if op == "inv":
-        return a[0] % m > 1
-    if op == "pow":
-        return a[1] >= 2 and a[0] % m > 1
-    if op == "eq":
-        return a[0] != a[1]
-    x, y = a[0] % m, a[1] % m
+    m = c["m"]
+    if c["op"] == "rpn":
+        return n_ops(c) >= 2
+    n = norm(c)
+    k = n[0]
+    if k in ("new", "read"):
+        return not (0 <= n[1] < m)
+    if k == "neg":
+        return n[1] % m != 0
+    if k == "inv":
+        return n[1] % m > 1
+    if k == "pow":
+        return n[2] >= 2 and n[1] % m > 1
+    if k == "eq":
+        return n[1] != n[2]
+    op, x, y = n[1], n[3] % m, n[4] % m
     if op == "add":
         return x + y >= m
     if op == "sub":
@@ -159,14 +310,33 @@ def nontrivial(c, obs):
     return y > 1 and x > 0    # div
 
 
+def mod_class(m):
+    if m <= 25:
+        return "small"
+    if m >= 2147483000:
+        return "2^31-"
+    if m >= (1 << 30) - 1:
+        return "2^30+"
+    if m > 70000:
+        return "prime30" if m in (998244353, 1000000007) else "2^17..2^30"
+    return "2^16" if m >= 65536 else "2^8..2^16"
+
+
 def classify(c, obs):
     m = c["m"]
-    mc = "small" if m <= 12 else ("2^31-" if m >= 2147483000 else ("prime30" if m > 70000 else "2^16"))
     kind = "panic" if obs.startswith("P") else "value"
     extra = ""
-    if base_op(c["op"]) in ("inv", "div"):
-        extra = "/unit" if gcdpy(c["args"][-1], m) == 1 else "/nonunit"
-    return "%s/%s%s/%s" % (c["op"], mc, extra, kind)
+    n = norm(c)
+    if n[0] == "inv":
+        extra = "/unit" if gcdpy(n[1], m) == 1 else "/nonunit"
+    elif n[0] == "bin" and n[1] == "div":
+        extra = "/unit" if gcdpy(n[4], m) == 1 else "/nonunit"
+    op = c["op"]
+    if op == "rpn":
+        op = "rpn%s%d" % ("==" if n[0] == "eq" else "", min(n_ops(c), 4))
+    if c.get("alias"):
+        op += "@alias"
+    return "%s/%s%s/%s" % (op, mod_class(m), extra, kind)
 
 
 def case(m, op, *args):
@@ -206,15 +376,334 @@ def exponents(rng, m, n_random):
     return e
 
 
+def small_factors(m):
+    f, x, p = [], m, 2
+    while p * p <= x and p < 70000:
+        if x % p == 0:
+            f.append(p)
+            while x % p == 0:
+                x //= p
+        p += 1
+    if x > 1 and x != m:
+        f.append(x)
+    return f
+
+
 def inv_operands(rng, m, n_random):
-    """units and non-units; M-1 / M/2 make the first quotient extreme, M/phi makes the loop longest"""
+    """units and non-units; M-1 / M/2 make the first quotient extreme, M/phi makes the loop longest; for a composite
+    modulus every prime factor p, its cofactor, multiples of both, and the units next to them"""
     phi = int(m * 0.6180339887498949)
     v = [0, 1, 2, 3, m - 1, m - 2, m // 2, m // 2 + 1, m // 3, phi, phi + 1, phi - 1, m - phi, 46341, 65535, 65536, 65537]
-    for p in (2, 3, 7, 11, 31, 151, 331, 65536):
-        if m % p == 0:
-            v += [p, m // p, (m // p) * rng.range(1, p) % m, p * rng.range(1, max(1, m // p - 1)) % m]
+    for p in small_factors(m):
+        v += [p, m // p, (m // p) * rng.range(1, p) % m, p * rng.range(1, max(1, m // p - 1)) % m,
+              p + 1, p - 1, m // p + 1, m // p - 1, m - p, m - m // p]
     v += [rng.below(m) for _ in range(n_random)]
     return [x % m for x in v]
+
+
+# factors at the widths where a narrower product would stop being exact (i16 / i32 / u32 / f32 mantissa / 2^30, 2^31, 2^32)
+CLUSTERS = [[(1 << 15) - 1, 1 << 15, (1 << 15) + 1], [46340, 46341, 46342], [65535, 65536, 65537]]
+
+
+def width_factors(m):
+    t = [x for cl in CLUSTERS for x in cl] + [1 << 24, 1 << 30, (1 << 31) % m, (1 << 32) % m]
+    return [x % m for x in t]
+
+
+def some_unit(rng, m):
+    for _ in range(200):
+        a = rng.below(m)
+        if gcdpy(a, m) == 1:
+            return a
+    return 1
+
+
+def unit_near(rng, m, x):
+    """x if it is a unit, otherwise a unit (the expressions below only divide by units: what a division by a
+    non-unit returns is not specified, so a chain through it would test the model of it, not the property)"""
+    return x % m if gcdpy(x, m) == 1 else some_unit(rng, m)
+
+
+def noncanon(rng, m, r):
+    """a constructor argument congruent to r"""
+    k = rng.choice([0, 0, 1, -1, 2, -3, rng.range(-(1 << 31), 1 << 31)])
+    return clamp_i64(r + k * m) if abs(r + k * m) < (1 << 62) else r
+
+
+def rpn_shapes(rng, m, pool, n, cube=False):
+    """multi-step expressions (executor op `rpn`).  `pool()` draws an operand."""
+    out = []
+
+    def R(*toks):
+        out.append(case(m, "rpn", *toks))
+
+    def value_of(toks):
+        return rpn_eval(m, toks)[1]
+
+    def with_eq(toks):
+        """the expression, and the expression compared with fresh values: congruent (canonical and not), off by one"""
+        R(*toks)
+        r = value_of(toks)
+        c = rng.choice([r, noncanon(rng, m, r), noncanon(rng, m, r), (r + 1) % m, (r - 1) % m, r + m, r - m])
+        if rng.chance(1, 2):
+            R(*(list(toks) + [c, "=="]))
+        else:
+            R(*([c] + list(toks) + ["=="]))
+
+    if cube:
+        b = [0, 1, 2, m - 2, m - 1, m // 2, m // 2 + 1]
+        for x in b:
+            for y in b:
+                for w in b:
+                    R(x, y, "+", w, "+")
+                    if rng.chance(1, 3):
+                        R(x, y, "+=", w, "+=")
+                    if rng.chance(1, 3):
+                        R(x, y, "-", w, "-")
+    for _ in range(n):
+        a, b, c = pool(), pool(), pool()
+        d, e = rng.choice([0, 1, 2, 3, 5, m - 2, m - 1, rng.range(0, 1 << 20)]), rng.choice([0, 1, 2, 3, 7, rng.range(0, 1 << 20)])
+        u = unit_near(rng, m, pool())
+        shape = rng.below(16)
+        if shape == 0:
+            with_eq([a, b, "+", c, "+"])
+        elif shape == 1:
+            with_eq([a, b, "+=", c, "+="])
+        elif shape == 2:
+            with_eq([a, b, "-", c, rng.choice(["-", "-="])])
+        elif shape == 3:
+            with_eq([a, b, rng.choice(["*", "*="]), c, rng.choice(["+", "-", "+=", "-="])])
+        elif shape == 4:
+            with_eq([c, a, b, "*", rng.choice(["-", "+"])])
+        elif shape == 5:
+            with_eq([a, b, "-", "neg"])
+            R(a, b, "-", "neg", b, a, "-", "==")
+        elif shape == 6:
+            with_eq([a, "^%d" % d, a, "*"])
+            R(a, "^%d" % d, a, "*", a, "^%d" % (d + 1), "==")
+        elif shape == 7:
+            with_eq([a, "^%d" % d, "^%d" % e])
+            R(a, "^%d" % d, "^%d" % e, a, "^%d" % (d * e), "==")
+        elif shape == 8:
+            with_eq([u, "inv", "inv"])
+            R(u, "inv", u, "*", "O", "==")
+        elif shape == 9:
+            with_eq([a, u, rng.choice(["/", "/="]), u, rng.choice(["*", "*="])])
+            R(a, u, "/", u, "*", a, "==")
+        elif shape == 10:
+            with_eq([a, u, "*", u, rng.choice(["/", "/="])])
+            R(a, a, u, "*", u, "/", "==")
+        elif shape == 11:
+            with_eq([a, b, "+", c, "*", a, "-", b, "neg", "+"])
+        elif shape == 12:
+            # the constants as operands and on either side of ==
+            R("Z", a, "+")
+            R(a, "O", rng.choice(["*", "*=", "/"]))
+            R(a, "dup", "-", "Z", "==")
+            R(u, "dup", "/", "O", "==")
+            R("O", a, "*", a, "==")
+            R("Z", a, "-", a, "neg", "==")
+        elif shape == 13:
+            R(rng.choice(["Z", "O"]), rng.choice([0, 1, m, m + 1, -m, 1 - m, a]), "==")
+            R(rng.choice(["Z", "O"]), rng.choice(["neg", "inv", "^0", "^1", "^%d" % d]))
+            R("O", "O", "+", 2, "==")
+            R("O", "neg", m - 1, "==")
+            R(a, "^0", "O", "==")
+        elif shape == 14:
+            with_eq([a, b, "*", u, "/", c, "+", "neg"])
+        else:
+            with_eq([a, u, "/", b, u, "/", "+", u, "*"])    # a/u + b/u, times u = a + b
+            R(a, u, "/", b, u, "/", "+", u, "*", a, b, "+", "==")
+    return out
+
+
+def rpn_random(rng, m, pool, n_ops_max):
+    """a random expression; divisors and inv operands are made units"""
+    toks, depth = [pool()], 1
+    todo = rng.range(3, n_ops_max)
+    while todo > 0:
+        k = rng.below(10)
+        if k < 6:
+            y = pool() if not rng.chance(1, 8) else rng.choice(["Z", "O"])
+            op = rng.choice(["+", "-", "*", "+=", "-=", "*=", "/", "/="])
+            if op in ("/", "/="):
+                y = unit_near(rng, m, pool())
+            toks += [y, op]
+        elif k == 6:
+            toks.append("neg")
+        elif k == 7:
+            toks.append("^%d" % rng.choice([0, 1, 2, 3, rng.range(0, 1 << 10), rng.range(0, U64_MAX)]))
+        elif k == 8:
+            if gcdpy(rpn_eval(m, toks)[1], m) == 1:
+                toks.append("inv")
+            else:
+                toks += ["O", "+"]
+        else:
+            toks += ["dup", rng.choice(["+", "*", "-"])]
+        todo -= 1
+    if rng.chance(1, 3):
+        r = rpn_eval(m, toks)[1]
+        toks += [rng.choice([r, noncanon(rng, m, r), (r + 1) % m]), "=="]
+    return case(m, "rpn", *toks)
+
+
+def small_cases(rng, m, thorough, full):
+    cases = []
+    for a in range(m):
+        for b in range(m):
+            if full:
+                for op in BINOPS + ["eq"]:
+                    cases.append(case(m, op, a, b))
+                for op in BINOPS:
+                    if m <= 4 or thorough or rng.chance(1, 4):
+                        cases.append(case(m, op + "a", a, b))
+            elif m <= 15 or rng.chance(1, 2):
+                # quick tier on the added moduli: a pair meets one operator (division twice as often)
+                cases.append(case(m, rng.choice(BINOPS + ["div", "eq"] + [o + "a" for o in BINOPS]), a, b))
+            # the same pair through non-canonical constructor arguments
+            if full or rng.chance(1, 8):
+                op = rng.choice(BINOPS + ["eq"] + [o + "a" for o in BINOPS])
+                cases.append(case(m, op, a + m * rng.range(-3, 3), b - m * rng.range(-3, 3)))
+    for v in range(-2 * m - 1, 2 * m + 2):
+        cases.append(case(m, "new", v))
+        if full or rng.chance(1, 3):
+            cases.append(case(m, "read", v))
+    for a in range(m):
+        cases.append(case(m, "neg", a))
+        cases.append(case(m, "inv", a))
+        cases.append(case(m, "neg", a - m))
+        cases.append(case(m, "inv", a + m * rng.range(-5, 5)))
+        big_d = [1 << 63, U64_MAX, rng.range(0, U64_MAX)]
+        for d in list(range(0, 5)) + big_d + ([m - 1, m, 2 * m - 2, 2 * m - 1] if not full else []):
+            # quick tier on the added moduli: the square, one exponent >= 2(M-1), one huge exponent, a share of the rest
+            if full or d in (2, rng.choice([2 * m - 2, 2 * m - 1]), rng.choice(big_d)) or rng.chance(1, 5):
+                cases.append(case(m, "pow", a, d))
+    for v in ctor_args(rng, m, 2):
+        cases.append(case(m, rng.choice(["new", "read"]), v))
+    # multi-step expressions: every triple for M <= 4, otherwise a sample
+    if m <= 4:
+        for a in range(m):
+            for b in range(m):
+                for c in range(m):
+                    cases.append(case(m, "rpn", a, b, rng.choice(["+", "+="]), c, rng.choice(["+", "+="])))
+                    cases.append(case(m, "rpn", a, b, "*", c, rng.choice(["+", "-"])))
+    n = (12 if full else 6) if not thorough else 120
+    cases += rpn_shapes(rng, m, lambda: rng.range(-m, 2 * m), n)
+    for _ in range(n // 2):
+        cases.append(rpn_random(rng, m, lambda: rng.range(-m, 2 * m), 6))
+    for _ in range(2 if not thorough else 20):
+        vs = [rng.range(-2 * m, 2 * m) for _ in range(rng.range(1, 4))]
+        cases.append(case(m, "readv", rng.below(len(vs)), *vs))
+        cases.append(case(m, "readt", rng.choice([0, 2]), rng.range(-2 * m, 2 * m), rng.range(-99, 99), rng.range(-2 * m, 2 * m)))
+        cases.append(case(m, "tinv", rng.below(m)))
+        cases.append(case(m, "tdiv", rng.below(m), rng.below(m)))
+    return cases
+
+
+def big_cases(rng, m, nr, thorough, n_width, n_invpairs, n_rpn, cube):
+    cases = []
+    bnd, rnd = residues(rng, m, nr)
+    pairs = [(a, b) for a in bnd for b in bnd]
+    pairs += [(rng.choice(rnd), rng.choice(rnd)) for _ in range(nr)]
+    pairs += [(rng.choice(rnd), rng.choice(bnd)) for _ in range(nr // 2)]
+    pairs += [(rng.choice(bnd), rng.choice(rnd)) for _ in range(nr // 2)]
+    for (a, b) in pairs:
+        for op in BINOPS:
+            # every pair runs every operator, in one of the two forms (thorough: both)
+            if thorough:
+                cases.append(case(m, op, a, b))
+                cases.append(case(m, op + "a", a, b))
+            else:
+                cases.append(case(m, op + ("a" if rng.chance(1, 3) else ""), a, b))
+        if rng.chance(1, 4):
+            cases.append(case(m, "eq", a, b))
+    # b = M - a  (sum exactly M), b = a (difference 0), b = a +- 1
+    for a in bnd + rnd[:3]:
+        for b in sorted({(m - a) % m, a, (a + 1) % m, (a - 1) % m, (m - a - 1) % m, (m - a + 1) % m}):
+            cases.append(case(m, rng.choice(["add", "add", "adda"]), a, b))
+            cases.append(case(m, rng.choice(["sub", "sub", "suba"]), a, b))
+            if thorough or rng.chance(1, 3):
+                cases.append(case(m, "eq", a, b))
+    ca = ctor_args(rng, m, nr)
+    for v in ca:
+        cases.append(case(m, "new", v))
+        if rng.chance(1, 2):
+            cases.append(case(m, "read", v))
+    # a value that arrives after 64 KiB of earlier input: its token straddles the Reader's refill boundary
+    for v in [rng.choice(ca) for _ in range(3 if not thorough else 12)] + [I64_MIN, I64_MAX]:
+        L = len(str(v))
+        for d in sorted({1, 2, L // 2, L - 1, L, L + 1} - {0}):
+            cases.append(case(m, "readfar", v, d))
+    for _ in range(nr * 2):
+        a, b = rng.choice(ca), rng.choice(ca)
+        cases.append(case(m, rng.choice(BINOPS + ["eq", "adda", "suba", "mula", "diva"]), a, b))
+        if rng.chance(1, 3):
+            cases.append(case(m, "eq", a, a + m * rng.range(-4, 4) if abs(a) < (1 << 62) else a))
+    for a in bnd + rnd[:6]:
+        cases.append(case(m, "neg", a))
+        cases.append(case(m, "neg", a - m))
+    ex = exponents(rng, m, nr)
+    for a in bnd:
+        for d in [0, 1, 2, 1 << 63, U64_MAX, rng.choice(ex)]:
+            cases.append(case(m, "pow", a, d))
+    for d in ex:
+        cases.append(case(m, "pow", rng.choice(rnd), d))
+    for a in inv_operands(rng, m, 2 * nr):
+        cases.append(case(m, "inv", a))
+        if rng.chance(1, 2):
+            cases.append(case(m, rng.choice(["div", "diva"]), rng.choice(rnd + bnd), a))
+        if rng.chance(1, 4):
+            cases.append(case(m, "inv", clamp_i64(a + m * rng.range(-(1 << 31), 1 << 31))))
+    # ---- factors at the product-width boundaries (2^15, 46341, 2^16, 2^24, 2^30, 2^31, 2^32 mod M)
+    T = width_factors(m)
+    wp = [(a % m, b % m) for cl in CLUSTERS for a in cl for b in cl]
+    if n_width is None:
+        wp = [(a, b) for a in T for b in T]
+    else:
+        wp += [(rng.choice(T), rng.choice(T)) for _ in range(n_width)]
+    for (a, b) in wp:
+        cases.append(case(m, rng.choice(["mul", "mul", "mula"]) if n_width is not None else "mul", a, b))
+        if n_width is None:
+            cases.append(case(m, "mula", a, b))
+    for a in (T if n_width is None else [rng.choice(T) for _ in range(4)]):
+        cases.append(case(m, "pow", a, 2))
+        cases.append(case(m, "pow", a, 3))
+    # ---- products that land next to a multiple of M with a quotient of the order of M: b = +-a^-1, +-a^-1 +- 1
+    for _ in range(n_invpairs):
+        a = some_unit(rng, m)
+        ai = pow(a, -1, m)
+        for b in sorted({ai, m - ai, (ai + 1) % m, (ai - 1) % m, (m - ai + 1) % m, (m - ai - 1) % m}):
+            cases.append(case(m, rng.choice(["mul", "mul", "mula"]), a, b))
+    # ---- multi-step expressions, == on computed values, the constants
+    def pool():
+        k = rng.below(8)
+        if k < 3:
+            return rng.choice(bnd)
+        if k < 5:
+            return rng.choice(rnd)
+        if k == 5:
+            return rng.choice(T)
+        if k == 6:
+            return rng.choice(ca)
+        return noncanon(rng, m, rng.choice(bnd))
+    cases += rpn_shapes(rng, m, pool, n_rpn, cube=cube)
+    cases.append(case(m, "rpn", m - 1, m - 1, "+", m - 1, "+"))
+    cases.append(case(m, "rpn", m - 1, m - 1, "+=", m - 1, "+=", m - 3, "=="))
+    cases.append(case(m, "rpn", 0, 1, "-", 1, "-", m - 2, "=="))
+    for _ in range(n_rpn // 2):
+        cases.append(rpn_random(rng, m, pool, 8))
+    # ---- several values through read_vec / a tuple read; inverse and quotient on a second thread
+    for _ in range(max(2, n_rpn // 8)):
+        vs = [rng.choice(ca) for _ in range(rng.range(1, 4))]
+        cases.append(case(m, "readv", rng.below(len(vs)), *vs))
+        cases.append(case(m, "readt", rng.choice([0, 2]), rng.choice(ca), rng.choice(ca), rng.choice(ca)))
+        cases.append(case(m, "tinv", rng.choice([rng.below(1024), rng.below(m), rng.choice(bnd)])))
+        cases.append(case(m, "tdiv", rng.choice(rnd), rng.choice([rng.below(1024), rng.below(m)])))
+    return cases
+
+
+KEEP_QUICK_ADDED = {"inv": (1, 1), "tinv": (1, 1), "div": (1, 3), "diva": (1, 3), "tdiv": (1, 1), "pow": (1, 4), "rpn": (1, 1),
+                    "mul": (1, 4), "mula": (1, 4), "readv": (1, 1), "readt": (1, 1)}
 
 
 def generate(rng, tier):
@@ -222,89 +711,92 @@ def generate(rng, tier):
     cases = []
     # ---- small moduli: exhaustive
     for m in SMALL:
-        for a in range(m):
-            for b in range(m):
-                for op in BINOPS + ["eq"]:
-                    cases.append(case(m, op, a, b))
-                for op in BINOPS:
-                    if m <= 4 or thorough or rng.chance(1, 4):
-                        cases.append(case(m, op + "a", a, b))
-                # the same pair through non-canonical constructor arguments
-                op = rng.choice(BINOPS + ["eq"] + [o + "a" for o in BINOPS])
-                cases.append(case(m, op, a + m * rng.range(-3, 3), b - m * rng.range(-3, 3)))
-        for v in range(-2 * m - 1, 2 * m + 2):
-            cases.append(case(m, "new", v))
-            cases.append(case(m, "read", v))
-        for a in range(m):
-            cases.append(case(m, "neg", a))
-            cases.append(case(m, "inv", a))
-            cases.append(case(m, "neg", a - m))
-            cases.append(case(m, "inv", a + m * rng.range(-5, 5)))
-            for d in list(range(0, 5)) + [1 << 63, U64_MAX, rng.range(0, U64_MAX)]:
-                cases.append(case(m, "pow", a, d))
-        for v in ctor_args(rng, m, 2):
-            cases.append(case(m, rng.choice(["new", "read"]), v))
+        cases += small_cases(rng, m, thorough, True)
+    for m in SMALL2:
+        cases += small_cases(rng, m, thorough, thorough)
     # ---- large moduli: boundary and random
-    nr = 12 if not thorough else 400
     for m in BIG:
-        bnd, rnd = residues(rng, m, nr)
-        pairs = [(a, b) for a in bnd for b in bnd]
-        pairs += [(rng.choice(rnd), rng.choice(rnd)) for _ in range(nr)]
-        pairs += [(rng.choice(rnd), rng.choice(bnd)) for _ in range(nr // 2)]
-        pairs += [(rng.choice(bnd), rng.choice(rnd)) for _ in range(nr // 2)]
-        for (a, b) in pairs:
-            for op in BINOPS:
-                # every pair runs every operator, in one of the two forms (thorough: both)
-                if thorough:
-                    cases.append(case(m, op, a, b))
-                    cases.append(case(m, op + "a", a, b))
-                else:
-                    cases.append(case(m, op + ("a" if rng.chance(1, 3) else ""), a, b))
-            if rng.chance(1, 4):
-                cases.append(case(m, "eq", a, b))
-        # b = M - a  (sum exactly M), b = a (difference 0), b = a +- 1
-        for a in bnd + rnd[:3]:
-            for b in sorted({(m - a) % m, a, (a + 1) % m, (a - 1) % m, (m - a - 1) % m, (m - a + 1) % m}):
-                cases.append(case(m, rng.choice(["add", "add", "adda"]), a, b))
-                cases.append(case(m, rng.choice(["sub", "sub", "suba"]), a, b))
-                if thorough or rng.chance(1, 3):
-                    cases.append(case(m, "eq", a, b))
-        ca = ctor_args(rng, m, nr)
-        for v in ca:
-            cases.append(case(m, "new", v))
-            if rng.chance(1, 2):
-                cases.append(case(m, "read", v))
-        # a value that arrives after 64 KiB of earlier input: its token straddles the Reader's refill boundary
-        for v in [rng.choice(ca) for _ in range(3 if not thorough else 12)] + [I64_MIN, I64_MAX]:
-            L = len(str(v))
-            for d in sorted({1, 2, L // 2, L - 1, L, L + 1} - {0}):
-                cases.append(case(m, "readfar", v, d))
-        for _ in range(nr * 2):
-            a, b = rng.choice(ca), rng.choice(ca)
-            cases.append(case(m, rng.choice(BINOPS + ["eq", "adda", "suba", "mula", "diva"]), a, b))
-            if rng.chance(1, 3):
-                cases.append(case(m, "eq", a, a + m * rng.range(-4, 4) if abs(a) < (1 << 62) else a))
-        for a in bnd + rnd[:6]:
-            cases.append(case(m, "neg", a))
-            cases.append(case(m, "neg", a - m))
-        ex = exponents(rng, m, nr)
-        for a in bnd:
-            for d in [0, 1, 2, 1 << 63, U64_MAX, rng.choice(ex)]:
-                cases.append(case(m, "pow", a, d))
-        for d in ex:
-            cases.append(case(m, "pow", rng.choice(rnd), d))
-        for a in inv_operands(rng, m, 2 * nr):
-            cases.append(case(m, "inv", a))
-            if rng.chance(1, 2):
-                cases.append(case(m, rng.choice(["div", "diva"]), rng.choice(rnd + bnd), a))
-            if rng.chance(1, 4):
-                cases.append(case(m, "inv", clamp_i64(a + m * rng.range(-(1 << 31), 1 << 31))))
+        part = big_cases(rng, m, 12 if not thorough else 400, thorough,
+                         n_width=(10 if not thorough else None), n_invpairs=(3 if not thorough else 40),
+                         n_rpn=(24 if not thorough else 500), cube=(thorough and m > (1 << 31) - 100))
+        if m in ALIAS:
+            # a share of the cases of the two competition primes goes through the crate's alias types
+            for c in part:
+                if rng.chance(1, 4):
+                    c["alias"] = ALIAS[m]
+        cases += part
+    for m in BIG2:
+        part = big_cases(rng, m, 3 if not thorough else 100, thorough,
+                         n_width=(3 if not thorough else None), n_invpairs=(1 if not thorough else 12),
+                         n_rpn=(8 if not thorough else 150), cube=(thorough and m > (1 << 31) - 100))
+        if not thorough:
+            # the added moduli carry a sample of the families above (all inverses, expressions and thread/container
+            # cases, a share of the rest); the thorough tier runs everything
+            kept = []
+            for c in part:
+                num, den = KEEP_QUICK_ADDED.get(c["op"], (1, 10))
+                if rng.chance(num, den):
+                    kept.append(c)
+            part = kept
+        cases += part
+    # one executor process runs all cases in this order: interleave the moduli (state kept between calls - a table, a
+    # cache - then meets another modulus next), which also spreads the expensive pow cases evenly over the Coq batches
+    rng.shuffle(cases)
     return cases
 
 
 def shrink(c):
     out = []
     m, args = c["m"], c["args"]
+
+    def put(d):
+        d = dict(d)
+        if d["m"] not in ALIAS or d["m"] != m:
+            d.pop("alias", None)
+        out.append(d)
+
+    if c.get("alias"):
+        put({k: v for k, v in c.items() if k != "alias"})
+    if c["op"] == "rpn":
+        # every proper prefix that is a complete program, then smaller literals
+        depth = 0
+        for i, t in enumerate(args[:-1]):
+            t = str(t)
+            if is_lit(t) or t in ("Z", "O", "dup"):
+                depth += 1
+            elif t in RPN_BIN:
+                depth -= 1
+            if depth == 1 and i >= 0:
+                put(dict(c, args=list(args[:i + 1])))
+        # the last operation alone, on the canonical residues of its operands
+        n = norm(c)
+        if n[0] == "bin":
+            put(dict(c, op=n[1] + ("a" if n[2] else ""), args=[n[3], n[4]]))
+        elif n[0] == "eq":
+            put(dict(c, op="eq", args=[n[1], n[2]]))
+        elif n[0] in ("neg", "inv"):
+            put(dict(c, op=n[0], args=[n[1]]))
+        elif n[0] == "pow":
+            put(dict(c, op="pow", args=[n[1], n[2]]))
+        for i, t in enumerate(args):
+            if is_lit(t) and int(t) not in (0, 1):
+                for w in (int(t) % m, 1, 0):
+                    if w != int(t):
+                        n2 = list(args)
+                        n2[i] = w
+                        try:
+                            rpn_eval(m, n2)
+                        except Exception:
+                            continue
+                        put(dict(c, args=n2))
+        return out
+    if c["op"] in ("readv", "readt"):
+        put(dict(c, op="read", args=[norm(c)[1]]))
+        return out
+    if c["op"] == "tinv":
+        put(dict(c, op="inv"))
+    if c["op"] == "tdiv":
+        put(dict(c, op="div"))
     for i, v in enumerate(args):
         is_exp = (c["op"] == "pow" and i == 1)
         cands = [0, 1, v // 2, v - 1 if v > 0 else v + 1]
@@ -318,55 +810,161 @@ def shrink(c):
                 seen.add(w)
                 n = list(args)
                 n[i] = w
-                out.append(dict(c, args=n))
+                put(dict(c, args=n))
     # a smaller modulus with the same residues, and the operator form instead of the assigning one
-    for m2 in SMALL + BIG:
-        if m2 < m:
-            out.append(dict(c, m=m2))
+    smaller = [m2 for m2 in ALL_MODULI if m2 < m]
+    for m2 in smaller[:4] + smaller[-6:]:
+        put(dict(c, m=m2))
     if base_op(c["op"]) != c["op"]:
-        out.append(dict(c, op=base_op(c["op"])))
+        put(dict(c, op=base_op(c["op"])))
     if c["op"] == "read":
-        out.append(dict(c, op="new"))
+        put(dict(c, op="new"))
     # a failure of / or pow is often a failure of * or inv underneath
     if c["op"] == "div":
-        out.append(dict(c, op="mul"))
-        out.append(dict(c, op="inv", args=[args[1]]))
+        put(dict(c, op="mul"))
+        put(dict(c, op="inv", args=[args[1]]))
     if c["op"] == "pow":
-        out.append(dict(c, op="mul", args=[args[0], args[0]]))
+        put(dict(c, op="mul", args=[args[0], args[0]]))
     if c["op"] in ("mul", "add", "sub", "neg", "inv"):
-        out.append(dict(c, op="new", args=[args[0]]))
+        put(dict(c, op="new", args=[args[0]]))
     return out
 
 
 def py_ok(c, obs):
     """the property, decided with Python integers (independent of the Coq model and of spec_check)"""
-    m, a, op = c["m"], c["args"], base_op(c["op"])
-    t = obs.split()
-    if not t or t[0] != "R":
+    m = c["m"]
+    if c["op"] == "rpn":
+        n, val, clean = rpn_eval(m, c["args"])
+    else:
+        n, val, clean = norm(c), None, True
+    k = n[0]
+    if k == "eq":
+        e = "1" if (n[1] - n[2]) % m == 0 else "0"
+        return obs == "R %s %s" % (e, e)
+    r, d, g, w = parse_value(obs)
+    if not (d == g == w == str(r)) or not 0 <= r < m:
         return False
-    if op == "eq":
-        e = "1" if (a[0] - a[1]) % m == 0 else "0"
-        return t[1:] == [e, e]
-    if len(t) != 5 or not (t[1] == t[2] == t[3] == t[4]) or not t[1].isdigit() or str(int(t[1])) != t[1]:
-        return False
-    r = int(t[1])
-    if not 0 <= r < m:
-        return False
-    if op in ("new", "read", "readfar"):
-        return r == a[0] % m
-    if op == "neg":
-        return r == (-a[0]) % m
-    if op == "inv":
-        return gcdpy(a[0], m) != 1 or (r * a[0]) % m == 1
-    if op == "pow":
-        return r == pow(a[0] % m, a[1], m)
+    if c["op"] == "rpn":
+        return r == val or not clean
+    if k in ("new", "read"):
+        return r == n[1] % m
+    if k == "neg":
+        return r == (-n[1]) % m
+    if k == "inv":
+        return gcdpy(n[1], m) != 1 or (r * n[1]) % m == 1
+    if k == "pow":
+        return r == pow(n[1] % m, n[2], m)
+    op, a, b = n[1], n[3], n[4]
     if op == "add":
-        return r == (a[0] + a[1]) % m
+        return r == (a + b) % m
     if op == "sub":
-        return r == (a[0] - a[1]) % m
+        return r == (a - b) % m
     if op == "mul":
-        return r == (a[0] * a[1]) % m
-    return gcdpy(a[1], m) != 1 or (r * a[1]) % m == a[0] % m     # div
+        return r == (a * b) % m
+    return gcdpy(b, m) != 1 or (r * b) % m == a % m     # div
+
+
+# ---- Show::show (rlib/mint/src/lib.rs 152-177): outside the Coq model, compared with a transcription of its loop
+def show_ref(m, v, mm, rat):
+    maxd = min(mm, m - 1) if rat else 1
+    for d in range(1, maxd + 1):
+        di = rust_inv(m, d % m)
+        for n in range(-mm, mm + 1):
+            if (n % m) * di % m == v:
+                return str(n) if d == 1 else "%d/%d" % (n, d)
+    return str(v) if mm == 0 else "?%d" % v
+
+
+def show_spec_ok(m, v, mm, rat, s):
+    """order-independent reading of what show may print: an integer n = v, |n| <= mint_max; a fraction n/d with
+    2 <= d <= min(mint_max, M-1) and n = v*d (d coprime to M); the fallback only when no such pair exists"""
+    def box_has_match():
+        maxd = min(mm, m - 1) if rat else 1
+        for d in range(1, maxd + 1):
+            if gcdpy(d, m) != 1:
+                continue
+            t = v * d % m
+            if t <= mm or m - t <= mm:
+                return True
+        return False
+    mt = re.fullmatch(r"(-?[0-9]+)(?:/([0-9]+))?", s)
+    if s == ("?%d" % v if mm != 0 else str(v)) and not (mm == 0 and v == 0):
+        if not box_has_match():
+            return True
+    if not mt:
+        return False
+    n = int(mt.group(1))
+    if abs(n) > mm:
+        return False
+    if mt.group(2) is None:
+        return n % m == v
+    d = int(mt.group(2))
+    if not rat or not 2 <= d <= min(mm, m - 1):
+        return False
+    return gcdpy(d, m) != 1 or n % m == v * d % m
+
+
+def show_cases(rng, n):
+    cases = []
+    mods = [2, 3, 9, 12, 25, 561, 65537, 998244353, 998244353, 1000000007, 1073741823, 2147483647, 2147483645]
+    for _ in range(n):
+        m = rng.choice(mods)
+        mm = rng.choice([100, 100, 100, 0, 1, 2, 5, 17, -1])
+        rat = rng.choice([1, 1, 0])
+        k = rng.below(7)
+        if k == 0:
+            a = rng.choice([0, 1, -1, 42, -42, 100, -100, 101, -101, 167239283, m - 1, m // 2])
+        elif k in (1, 2):
+            # a small fraction n/d
+            d = rng.range(1, 110)
+            a = (rng.range(-110, 110) * rust_inv(m, d % m)) % m
+        elif k == 3:
+            a = rng.range(-(1 << 40), 1 << 40)
+        else:
+            a = rng.below(m)
+        c = case(m, "show", a, mm, rat) if not rng.chance(1, 5) else case(m, "showd", a)
+        if m in ALIAS and rng.chance(1, 2):
+            c["alias"] = ALIAS[m]
+        cases.append(c)
+    return cases
+
+
+def show_judge(c, o):
+    """None if fine, else (what, nofail)"""
+    m, a = c["m"], c["args"]
+    mm, rat = (a[1], bool(a[2])) if c["op"] == "show" else (100, True)
+    t = o.split(" ")
+    if len(t) != 2 or t[0] != "S":
+        return ("Show::show panicked or printed nothing: %r" % o, False)
+    s = unhex(t[1])
+    if s == show_ref(m, a[0] % m, mm, rat):
+        return None
+    if show_spec_ok(m, a[0] % m, mm, rat, s):
+        return ("Show::show prints %r: an admissible reading of the value, but not what the reviewed search loop "
+                "returns (%r)" % (s, show_ref(m, a[0] % m, mm, rat)), True)
+    return ("Show::show prints %r, which does not denote the value within the settings (the reviewed loop returns %r)"
+            % (s, show_ref(m, a[0] % m, mm, rat)), False)
+
+
+def build_relchk(ctx):
+    """third build configuration (profile `relchk` of the executor crate: optimised for size, overflow checks on);
+    returns (path or None, note)"""
+    import os
+    import subprocess
+    import _driver
+    try:
+        tdir = os.path.dirname(os.path.dirname(ctx.bins["release"]))
+        hdir = _driver.HARNESS if getattr(ctx, "repo", "/repo") == "/repo" else os.path.join(ctx.work, "harness")
+        env = dict(os.environ, CARGO_NET_OFFLINE="true", CARGO_TARGET_DIR=tdir)
+        p = subprocess.run(["cargo", "build", "--offline", "-q", "--profile", "relchk", "--manifest-path",
+                            os.path.join(hdir, "crates", CRATE, "Cargo.toml")], cwd=hdir, env=env,
+                           stdout=subprocess.PIPE, stderr=subprocess.STDOUT, text=True, timeout=3600)
+        binp = os.path.join(tdir, "relchk", CRATE)
+        if p.returncode == 0 and os.path.exists(binp):
+            return binp, "built"
+        return None, "build failed: " + p.stdout[-600:]
+    except Exception as e:      # the third configuration is an addition: never let it break the check itself
+        return None, "not built: %r" % (e,)
 
 
 def extra(ctx, known):
@@ -375,33 +973,46 @@ def extra(ctx, known):
     from _driver import Rng, run_impl, short_hash
     n = 30000 if ctx.tier == "quick" else 600000
     rng = Rng(ctx.seed * 1000003 + 17).fork("C06-search")
-    ops = BINOPS + [o + "a" for o in BINOPS] + ["eq", "new", "read", "neg", "inv", "pow"]
+    ops = BINOPS + [o + "a" for o in BINOPS] + ["eq", "new", "read", "neg", "inv", "pow", "rpn", "rpn"]
+    mods = BIG + BIG + BIG2 + SMALL + SMALL2
     cases = []
     for _ in range(n):
-        m = rng.choice(BIG + BIG + SMALL)
+        m = rng.choice(mods)
         op = rng.choice(ops)
 
         def operand():
-            k = rng.below(6)
+            k = rng.below(7)
             if k == 0:
                 return rng.choice([0, 1, 2, m - 1, m - 2, m // 2, m // 2 + 1])
             if k == 1:
                 return rng.range(I64_MIN, I64_MAX)
             if k == 2:
                 return clamp_i64(m * rng.range(-(1 << 32), 1 << 32) + rng.range(-2, 2))
+            if k == 3:
+                return rng.choice(CLUSTERS[rng.below(3)]) % m
             return rng.below(m)
         if op in ("new", "read", "neg", "inv"):
-            cases.append(case(m, op, operand()))
+            c = case(m, op, operand())
         elif op == "pow":
             d = rng.choice([rng.range(0, U64_MAX), rng.range(0, 70), (1 << rng.range(0, 63)) - rng.below(2), U64_MAX - rng.below(3)])
-            cases.append(case(m, op, operand(), d))
+            c = case(m, op, operand(), d)
+        elif op == "rpn":
+            c = rpn_random(rng, m, operand, 10)
         else:
-            cases.append(case(m, op, operand(), operand()))
-    lines = [harness_line(c) for c in cases]
-    violations, bad = [], 0
-    for profile in PROFILES:
+            c = case(m, op, operand(), operand())
+        if m in ALIAS and rng.chance(1, 3):
+            c["alias"] = ALIAS[m]
+        cases.append(c)
+    shows = show_cases(rng, 400 if ctx.tier == "quick" else 6000)
+    lines = [harness_line(c) for c in cases + shows]
+    violations, bad, bad_show = [], 0, 0
+    relchk, relchk_note = build_relchk(ctx)
+    bins = dict(ctx.bins)
+    if relchk:
+        bins["relchk"] = relchk
+    for profile in list(PROFILES) + (["relchk"] if relchk else []):
         try:
-            outs = run_impl(ctx.bins[profile], lines)
+            outs = run_impl(bins[profile], lines)
         except RuntimeError as e:
             return {"coverage": {"search_evaluations": 0},
                     "violations": [{"name": "search-crash", "kind": "broken-correspondence", "nofail": True,
@@ -414,9 +1025,31 @@ def extra(ctx, known):
                                        "payload": {"case": c, "profile": profile, "impl_observation": o,
                                                    "what": "implementation-level search: the result violates the property "
                                                            "(judged with Python integers)"}})
-    return {"coverage": {"search_evaluations": len(cases) * len(PROFILES), "search_failures": bad,
-                         "search_rule": "uniform choice of modulus (14) and operation (14), operands: boundary residues, "
-                                        "uniform residues, uniform i64, multiples of M +-2; judged with Python integers"},
+        first_show = True
+        for c, o in zip(shows, outs[len(cases):]):
+            j = show_judge(c, o)
+            if j:
+                bad_show += 1
+                if first_show and not any(v["name"].startswith("show-") for v in violations):
+                    first_show = False
+                    v = {"name": "show-%s" % short_hash(harness_line(c) + profile), "nofail": j[1],
+                         "payload": {"case": c, "profile": profile, "impl_observation": o, "what": j[0]}}
+                    if j[1]:
+                        v["kind"] = "broken-correspondence"
+                        v["payload"]["obligation"] = "Show::show behaves like the reviewed search loop"
+                    violations.append(v)
+    nprof = len(PROFILES) + (1 if relchk else 0)
+    return {"coverage": {"search_evaluations": len(cases) * nprof, "search_failures": bad,
+                         "search_profiles": list(PROFILES) + (["relchk (release, opt-level s, overflow-checks on)"] if relchk else []),
+                         "relchk_profile": relchk_note,
+                         "search_rule": "uniform choice of modulus (31, the seven original big moduli twice) and operation (14 "
+                                        "single operations, random multi-step expressions of 3..10 operations twice), operands: "
+                                        "boundary residues, width-boundary factors, uniform residues, uniform i64, multiples of M "
+                                        "+-2; judged with Python integers",
+                         "show_evaluations": len(shows) * nprof, "show_failures": bad_show,
+                         "show_rule": "Show::show on 13 moduli (two through the aliases), mint_max in {100,0,1,2,5,17,-1}, "
+                                      "mint_rational on/off and the default settings; values: small integers, small fractions, "
+                                      "uniform residues; compared with a Python transcription of the search loop"},
             "violations": violations}
 
 
@@ -434,13 +1067,22 @@ MANIFEST = {
             "needed (c06_bound_needed_refuted_at_2_31, c06_lower_bound_needed_refuted_at_1); and model_check c = true -> "
             "spec_strict c = true (c06_model_implies_spec_strict: range, ring/inverse equations and canonical numeral carried "
             "from the model to every matching case by proof). The model is tied to the code on every run: the executor instantiates "
-            "14 moduli (2..12 exhaustively; 65536, 65537, 998244353, 10^9+7, 2^31-1, 2^31-2, 2^31-19 on boundary/random operands), "
-            "debug and release profile, and Coq proves model = implementation and implementation |= spec on every case; an "
-            "implementation-level random search judged with Python integers runs in addition.",
+            "31 moduli (2..12 and the odd composites/prime powers 5, 9, 15, 21, 25 and 10 exhaustively; 65536, 65537, 998244353, "
+            "10^9+7, 2^31-1, 2^31-2, 2^31-19 and 341, 561, 46341, 1373653, 2^24, 16777259, 10^9, 2^30-1, 2^30, 2^30+3, 2^31-3 on "
+            "boundary/random operands, factors at the 2^15 / 46341 / 2^16 / 2^24 / 2^30 product widths, inverse-derived factor "
+            "pairs; the two competition primes also through the aliases Mint998/Mint107), debug and release profile, single "
+            "operations and multi-step expressions (chains of + - * / neg inv pow in operator and assigning form, the constants "
+            "ZERO/ONE, == applied to computed values; Coq decides the last operation on the residues of its operands), values "
+            "read singly, through read_vec and tuples, inverses also on a second thread; the three renderings are compared byte "
+            "for byte, and the executor's internal checks (formatter flags, to_string, Writable of Vec/tuples, ZERO/ONE, "
+            "value == new(inner())) turn into a failing rendering; Coq proves model = implementation and implementation |= spec on "
+            "every case; an implementation-level random search judged with Python integers (single operations, random "
+            "expressions, and Show::show against a transcription of its search loop) runs in addition.",
     "level_note": "Trusted: Coq kernel + vm_compute; the Rust executor and the Python case printer; the Rust integer semantics "
                   "written into the model (casts keep the low bits, arithmetic is checked, / and % truncate); Readable is new "
                   "applied to the parsed i64 (the parser is C08); theorems are about the model, the correspondence is sampled on "
-                  "14 moduli; spec_check additionally compares every text with the standard library's decimal printer, "
+                  "31 moduli; inside a multi-step expression the sub-expressions are evaluated by the Python printer and Coq "
+                  "judges the last operation; Show::show is only compared with a Python transcription; spec_check additionally compares every text with the standard library's decimal printer, "
                   "which is evaluated per case (vm_compute), not covered by c06_model_implies_spec_strict.",
     "technique": "Coq proof over Gallina model + vm_compute correspondence batches against the Rust crate (debug and release)",
 }
